@@ -397,3 +397,34 @@ Definition df_join (l r : table) (on : on_arg) (how_str : name) : result (schema
 
 (* DataFrame.crossJoin -> DataFrameInternal.crossJoin -> self.join(other, on=None, how="cross") *)
 Definition df_cross_join (l r : table) : result (schema * list row) := internal_join l r None CROSS_JOIN.
+
+(* ------------------------------------------------------------------------------------------ *)
+(** * Evaluating a joined DataFrame more than once
+   A DataFrame is lazy: `join` only builds the plan (flatMap over grouped RDDs) and every action
+   (collect, count, rdd.collect, toLocalIterator, or a further filter/select followed by an action)
+   re-runs it.  In the model the joined DataFrame IS the value [df_join l r on how]; an action is a pure
+   function of it and hands the object on unchanged, so a session of actions on the same object cannot
+   influence later outcomes.  The implementation could (closures over a dict or a one-shot iterator
+   built at join time); that side is carried by the correspondence run and the oracle, which evaluate
+   every joined DataFrame several times and in several ways on the same object. *)
+Inductive action : Set := ACollect | ACount | ARddCollect | AFilterTrue | ALocalIterator | ASelectAll.
+
+Inductive outcome : Type :=
+| ORows (r : result (schema * list row))     (* the rows seen by that evaluation *)
+| OCount (r : result nat).
+
+Definition joined_df := result (schema * list row).
+
+(* one action: (object afterwards, outcome) *)
+Definition run_action (j : joined_df) (a : action) : joined_df * outcome :=
+  (j, match a with
+      | ACount => OCount (match j with Ok (_, rows) => Ok (List.length rows) | Err e => Err e end)
+      | ACollect | ARddCollect | AFilterTrue | ALocalIterator | ASelectAll => ORows j
+      end).
+
+(* a session: the actions run one after the other on the object the previous action left behind *)
+Fixpoint run_session (j : joined_df) (acts : list action) : list outcome :=
+  match acts with
+  | [] => []
+  | a :: acts' => let (j', o) := run_action j a in o :: run_session j' acts'
+  end.
